@@ -160,6 +160,7 @@ MmapLog<'a, ItemType, MAX_STREAMS> {
                 let running_streams_count = self.streams_manager.running_streams_count();
                 let used_streams = self.streams_manager.used_streams();
                 for i in 0..running_streams_count {
+                    #[cfg(feature = "verif")] crate::verif::yield_point_r("multi.used.read");
                     let stream_id = *unsafe { used_streams.get_unchecked(i as usize) };
                     if stream_id != u32::MAX {
                         self.streams_manager.wake_stream(stream_id);
@@ -181,6 +182,7 @@ MmapLog<'a, ItemType, MAX_STREAMS> {
                 let used_streams = self.streams_manager.used_streams();
                 // TODO 2024-03-05: can this Stream awakening be optimized, like on the zero-copy channels? Tests should prove it.
                 for i in 0..running_streams_count {
+                    #[cfg(feature = "verif")] crate::verif::yield_point_r("multi.used.read");
                     let stream_id = *unsafe { used_streams.get_unchecked(i as usize) };
                     if stream_id != u32::MAX {
                         self.streams_manager.wake_stream(stream_id);
@@ -206,6 +208,7 @@ MmapLog<'a, ItemType, MAX_STREAMS> {
             let used_streams = self.streams_manager.used_streams();
             // TODO 2024-03-05: can this Stream awakening be optimized, like on the zero-copy channels? Tests should prove it.
             for i in 0..running_streams_count {
+                #[cfg(feature = "verif")] crate::verif::yield_point_r("multi.used.read");
                 let stream_id = *unsafe { used_streams.get_unchecked(i as usize) };
                 if stream_id != u32::MAX {
                     self.streams_manager.wake_stream(stream_id);
